@@ -910,7 +910,23 @@ func c06r14(p *Program, r *Report) {
 			})
 			return hands
 		}
-		if handsOver(info, fi.Decl.Body) {
+		handsOverU := func(f *FuncInfo) bool {
+			if handsOver(f.Pkg.TypesInfo, f.Decl.Body) {
+				return true
+			}
+			// or through a method of the call itself (call.offer(resp))
+			for _, c := range callsIn(f.Decl.Body) {
+				if fn := calleeOf(f.Pkg.TypesInfo, c); fn != nil {
+					if sig, _ := fn.Type().(*types.Signature); sig != nil && sig.Recv() != nil && typeNameOf(sig.Recv().Type()) == "callReq" {
+						if h := p.FuncOf(fn); h != nil && h.Decl.Body != nil && handsOver(h.Pkg.TypesInfo, h.Decl.Body) {
+							return true
+						}
+					}
+				}
+			}
+			return false
+		}
+		if handsOverU(fi) {
 			n++
 			r.OK(fi.Decl, fi.Name+" takes calls out of Conn.calls to hand them over", "the function sends on callReq.resp")
 			return
@@ -974,7 +990,7 @@ func c06r14(p *Program, r *Report) {
 							continue
 						}
 						nsite++
-						if handsOver(cinfo, caller.Decl.Body) {
+						if handsOverU(caller) {
 							// the receive loop took the call out through the helper: as above
 							continue
 						}
@@ -1114,10 +1130,18 @@ func c15r7(p *Program, r *Report) {
 		ast.Inspect(fi.Decl.Body, func(x ast.Node) bool {
 			if f, ok := x.(*ast.ForStmt); ok {
 				scans := false
-				for _, part := range []ast.Node{f.Cond, f.Body} {
-					if part == nil {
-						continue
-					}
+				var parts []ast.Node
+				if f.Init != nil {
+					parts = append(parts, f.Init)
+				}
+				if f.Cond != nil {
+					parts = append(parts, f.Cond)
+				}
+				if f.Post != nil {
+					parts = append(parts, f.Post)
+				}
+				parts = append(parts, f.Body)
+				for _, part := range parts {
 					inspectNoLit(part, func(y ast.Node) bool {
 						if c, isC := y.(*ast.CallExpr); isC && isCallTo(info, c, "(*Iter).Scan") {
 							scans = true
@@ -1764,18 +1788,51 @@ func c06r15(p *Program, r *Report) {
 		r.Unresolved("controlConn.quit / controlConn.state not found")
 		return
 	}
-	isStateCAS := func(info *types.Info, c *ast.CallExpr) bool {
+	directCAS := func(info *types.Info, c *ast.CallExpr) bool {
 		if !strings.HasPrefix(calleeName(info, c), "atomic.CompareAndSwap") || len(c.Args) != 3 {
 			return false
 		}
 		u, ok := ast.Unparen(c.Args[0]).(*ast.UnaryExpr)
 		return ok && u.Op == token.AND && fieldOf(info, u.X) == stateF
 	}
-	constOf := func(info *types.Info, e ast.Expr) string {
-		if tv, has := info.Types[e]; has && tv.Value != nil {
-			return tv.Value.ExactString()
+	// casArgs: the old and new value of a compare-and-swap on controlConn.state made by call c, directly or through a
+	// helper whose body is the compare-and-swap with its own parameters as old / new value
+	casArgs := func(info *types.Info, c *ast.CallExpr) (oldV, newV ast.Expr, ok bool) {
+		if directCAS(info, c) {
+			return c.Args[1], c.Args[2], true
 		}
-		return ""
+		fn := calleeOf(info, c)
+		if fn == nil {
+			return nil, nil, false
+		}
+		h := p.FuncOf(fn)
+		if h == nil || h.Decl.Body == nil || len(h.Decl.Body.List) != 1 {
+			return nil, nil, false
+		}
+		rs, isRet := h.Decl.Body.List[0].(*ast.ReturnStmt)
+		if !isRet || len(rs.Results) != 1 {
+			return nil, nil, false
+		}
+		inner, isC := ast.Unparen(rs.Results[0]).(*ast.CallExpr)
+		if !isC || !directCAS(h.Pkg.TypesInfo, inner) {
+			return nil, nil, false
+		}
+		arg := func(e ast.Expr) ast.Expr {
+			for i := 0; i < len(c.Args); i++ {
+				if po := paramObj(h.Pkg.TypesInfo, h.Decl.Type, i); po != nil && isIdentOf(h.Pkg.TypesInfo, e, po) {
+					return c.Args[i]
+				}
+			}
+			if tv, has := h.Pkg.TypesInfo.Types[e]; has && tv.Value != nil {
+				return e
+			}
+			return nil
+		}
+		o, nw := arg(inner.Args[1]), arg(inner.Args[2])
+		if o == nil || nw == nil {
+			return nil, nil, false
+		}
+		return o, nw, true
 	}
 	// the receiver and the state it establishes
 	established := map[string]bool{}
@@ -1803,8 +1860,8 @@ func c06r15(p *Program, r *Report) {
 		nrecv++
 		for _, u := range p.unitsOf(fi) {
 			for _, c := range callsIn(u.Decl.Body) {
-				if isStateCAS(u.Pkg.TypesInfo, c) {
-					if v := constOf(u.Pkg.TypesInfo, c.Args[2]); v != "" {
+				if _, nw, ok := casArgs(u.Pkg.TypesInfo, c); ok {
+					if v := constOfAny(p, nw); v != "" {
 						established[v] = true
 					}
 				}
@@ -1834,7 +1891,7 @@ func c06r15(p *Program, r *Report) {
 		// the compare-and-swaps out of the established state in this function, by spelling
 		won := map[string]bool{}
 		for _, c := range callsIn(fi.Decl.Body) {
-			if isStateCAS(info, c) && established[constOf(info, c.Args[1])] {
+			if o, _, ok := casArgs(info, c); ok && established[constOfAny(p, o)] {
 				won[strings.ReplaceAll(exprStr(c), " ", "")] = true
 			}
 		}
@@ -2046,8 +2103,16 @@ func c05r13(p *Program, r *Report) {
 			n++
 			f, _ := facts.Before(rs)
 			var open []string
+			var sel ast.Expr = &ast.SelectorExpr{X: rs.Results[0], Sel: ast.NewIdent("typ")}
+			// a literal built at the return: what is asked about is the expression given for typ
+			if cl, isCL := ast.Unparen(rs.Results[0]).(*ast.CompositeLit); isCL {
+				for _, el := range cl.Elts {
+					if kv, isKV := el.(*ast.KeyValueExpr); isKV && exprStr(kv.Key) == "typ" {
+						sel = kv.Value
+					}
+				}
+			}
 			for _, c := range composites {
-				sel := &ast.SelectorExpr{X: rs.Results[0], Sel: ast.NewIdent("typ")}
 				v, known := f.Known(&ast.BinaryExpr{X: sel, Op: token.EQL, Y: ast.NewIdent(c)})
 				if !known || v {
 					open = append(open, c)
@@ -2072,38 +2137,104 @@ func c04r11(p *Program, r *Report) {
 	if fi == nil {
 		return
 	}
-	info := fi.Pkg.TypesInfo
-	g := p.GraphOf(fi)
-	facts := g.GuardFacts()
-	mp := paramObj(info, fi.Decl.Type, 0)
+	mp := paramObj(fi.Pkg.TypesInfo, fi.Decl.Type, 0)
 	if mp == nil {
 		r.Unresolved("rowMap has no map parameter")
 		return
 	}
-	copies := func(u *FuncInfo) bool {
-		mk, cp := false, false
-		for _, c := range callsIn(u.Decl.Body) {
-			switch calleeName(u.Pkg.TypesInfo, c) {
-			case "reflect.MakeSlice":
-				mk = true
-			case "reflect.Copy", "reflect.AppendSlice":
-				cp = true
-			}
+	// detached reports whether expression e, evaluated at statement at of function u, is not a slice that shares
+	// its backing array with what it was computed from: its kind is known not to be Slice there, or it is (the
+	// Interface() of) a reflect.MakeSlice value that was filled by reflect.Copy / built by reflect.AppendSlice, or the
+	// result of a helper of the package all of whose returns are detached in this sense.
+	var detached func(u *FuncInfo, e ast.Expr, at ast.Node, depth int) bool
+	detached = func(u *FuncInfo, e ast.Expr, at ast.Node, depth int) bool {
+		if depth > 3 {
+			return false
 		}
-		return mk && cp
-	}
-	var root func(e ast.Expr) ast.Expr
-	root = func(e ast.Expr) ast.Expr {
-		e = ast.Unparen(e)
-		if c, isC := e.(*ast.CallExpr); isC {
-			if sel, isSel := ast.Unparen(c.Fun).(*ast.SelectorExpr); isSel {
-				if _, isMethod := info.Selections[sel]; isMethod {
-					return root(sel.X)
+		info := u.Pkg.TypesInfo
+		g := p.GraphOf(u)
+		if node, found := g.cfgNodeOf(at); found {
+			if f, ok := g.GuardFacts().Before(node); ok {
+				for atom, v := range f.m {
+					a := strings.ReplaceAll(atom, " ", "")
+					if !v && (strings.HasSuffix(a, ".Kind()==reflect.Slice") || strings.HasPrefix(a, "reflect.Slice==")) {
+						return true
+					}
 				}
 			}
 		}
-		return e
+		var root func(e ast.Expr) ast.Expr
+		root = func(e ast.Expr) ast.Expr {
+			e = ast.Unparen(e)
+			if c, isC := e.(*ast.CallExpr); isC {
+				if sel, isSel := ast.Unparen(c.Fun).(*ast.SelectorExpr); isSel {
+					if _, isMethod := info.Selections[sel]; isMethod {
+						return root(sel.X)
+					}
+				}
+			}
+			return e
+		}
+		rt := root(e)
+		if id, isId := rt.(*ast.Ident); isId {
+			obj := info.Uses[id]
+			if obj == nil || !singleAssigned(info, u.Decl.Body, obj) {
+				return false
+			}
+			d := localDef(info, u, id)
+			if d == nil {
+				return false
+			}
+			dc, isC := ast.Unparen(d).(*ast.CallExpr)
+			if !isC {
+				return false
+			}
+			switch calleeName(info, dc) {
+			case "reflect.MakeSlice":
+				for _, c := range callsIn(u.Decl.Body) {
+					if calleeName(info, c) == "reflect.Copy" && len(c.Args) == 2 && isIdentOf(info, c.Args[0], obj) && c.End() <= at.Pos() {
+						return true
+					}
+				}
+				return false
+			case "reflect.AppendSlice":
+				if len(dc.Args) == 2 {
+					if mk, isMk := ast.Unparen(dc.Args[0]).(*ast.CallExpr); isMk && calleeName(info, mk) == "reflect.MakeSlice" {
+						return true
+					}
+				}
+				return false
+			}
+			rt = dc
+		}
+		if c, isC := rt.(*ast.CallExpr); isC {
+			fn := calleeOf(info, c)
+			if fn == nil {
+				return false
+			}
+			h := p.FuncOf(fn)
+			if h == nil || h.Decl.Body == nil || h.Pkg != u.Pkg {
+				return false
+			}
+			nret := 0
+			for _, ex := range p.GraphOf(h).Exits() {
+				rs, isRet := ex.Node.(*ast.ReturnStmt)
+				if !isRet || len(rs.Results) != 1 {
+					if ex.Kind != ExitPanic {
+						return false
+					}
+					continue
+				}
+				nret++
+				if !detached(h, rs.Results[0], rs, depth+1) {
+					return false
+				}
+			}
+			return nret > 0
+		}
+		return false
 	}
+	info := fi.Pkg.TypesInfo
 	n := 0
 	inspectNoLit(fi.Decl.Body, func(x ast.Node) bool {
 		as, ok := x.(*ast.AssignStmt)
@@ -2116,46 +2247,7 @@ func c04r11(p *Program, r *Report) {
 				continue
 			}
 			n++
-			f, _ := facts.Before(as)
-			notSlice := false
-			for atom, v := range f.m {
-				a := strings.ReplaceAll(atom, " ", "")
-				if !v && (strings.HasSuffix(a, ".Kind()==reflect.Slice") || strings.HasPrefix(a, "reflect.Slice==")) {
-					notSlice = true
-				}
-			}
-			if notSlice {
-				r.OK(as, "(*RowData).rowMap stores a non-slice value as it is", "kind known not to be Slice")
-				continue
-			}
-			rt := root(as.Rhs[i])
-			okCopy := false
-			switch v := rt.(type) {
-			case *ast.Ident:
-				if d := localDef(info, fi, v); d != nil {
-					if dc, isC := ast.Unparen(d).(*ast.CallExpr); isC && calleeName(info, dc) == "reflect.MakeSlice" {
-						// the copy into it comes before the store
-						for _, c := range callsIn(fi.Decl.Body) {
-							cn := calleeName(info, c)
-							if (cn == "reflect.Copy" && len(c.Args) == 2 && isIdentOf(info, c.Args[0], info.Uses[v]) && c.End() <= as.Pos()) {
-								okCopy = true
-							}
-						}
-					}
-					if dc, isC := ast.Unparen(d).(*ast.CallExpr); isC && calleeName(info, dc) == "reflect.AppendSlice" && len(dc.Args) == 2 {
-						if mk, isMk := ast.Unparen(dc.Args[0]).(*ast.CallExpr); isMk && calleeName(info, mk) == "reflect.MakeSlice" {
-							okCopy = true
-						}
-					}
-				}
-			case *ast.CallExpr:
-				if fn := calleeOf(info, v); fn != nil {
-					if h := p.FuncOf(fn); h != nil && h.Decl.Body != nil && copies(h) {
-						okCopy = true
-					}
-				}
-			}
-			r.Check(okCopy, as, "(*RowData).rowMap stores a copy of a slice-valued cell", "reflect.MakeSlice + reflect.Copy before the store", "a value whose kind may be Slice is stored in the row's map without being copied: it shares the backing array of the scan destination, which the next row overwrites, so rows already handed out by SliceMap / MapScan change their content")
+			r.Check(detached(fi, as.Rhs[i], as, 0), as, "(*RowData).rowMap stores a copy of a slice-valued cell", "kind known not to be Slice, or reflect.MakeSlice + reflect.Copy before the store (also through a helper)", "a value whose kind may be Slice is stored in the row's map without being copied: it shares the backing array of the scan destination, which the next row overwrites, so rows already handed out by SliceMap / MapScan change their content")
 		}
 		return true
 	})
@@ -2498,4 +2590,14 @@ func c02r13(p *Program, r *Report) {
 		return
 	}
 	r.OK(nil, fmt.Sprintf("%d uses of the dec* readers in the unmarshal functions, %d products with a decoded operand", census, n), "census")
+}
+
+// constOfAny: the constant value of e in whichever package of the program type-checked it ("" if none).
+func constOfAny(p *Program, e ast.Expr) string {
+	for _, pkg := range p.Pkgs {
+		if tv, has := pkg.TypesInfo.Types[e]; has && tv.Value != nil {
+			return tv.Value.ExactString()
+		}
+	}
+	return ""
 }
